@@ -1,5 +1,6 @@
 pub mod chunk;
 pub mod common;
+pub mod hostile;
 pub mod iofault;
 pub mod prog;
 
@@ -14,9 +15,10 @@ pub static RAWCOPY: Roundtrip = Roundtrip { mode: Mode::C14 };
 pub static ALIGN: Roundtrip = Roundtrip { mode: Mode::C17 };
 pub static CHUNKING: chunk::Chunking = chunk::Chunking;
 pub static IOFAULT: iofault::IoFault = iofault::IoFault;
+pub static HOSTILE: hostile::Hostile = hostile::Hostile;
 
 pub fn all() -> Vec<&'static dyn Scenario> {
-    vec![&ROUNDTRIP, &ROUNDTRIP_FULL, &STATEMACHINE, &APPEND, &RAWCOPY, &ALIGN, &CHUNKING, &IOFAULT]
+    vec![&ROUNDTRIP, &ROUNDTRIP_FULL, &STATEMACHINE, &APPEND, &RAWCOPY, &ALIGN, &CHUNKING, &IOFAULT, &HOSTILE]
 }
 
 pub fn lookup(name: &str) -> Option<&'static dyn Scenario> {
@@ -37,6 +39,7 @@ pub fn props() -> Vec<PropCfg> {
     vec![
         PropCfg { id: "C01", level: "exploration", scenarios: vec![&ROUNDTRIP], assumptions: vec![A_MODEL, A_CODEC] },
         PropCfg { id: "C02", level: "exploration", scenarios: vec![&ROUNDTRIP_FULL], assumptions: vec!["independent parser written from APPNOTE is the judge", A_CODEC, "literal 0xFFFF/0xFFFFFFFF without ZIP64 accepted"] },
+        PropCfg { id: "C05", level: "exploration", scenarios: vec![&HOSTILE], assumptions: vec!["heap bound while opening: 1024 x input length + 8 MiB, measured by a counting global allocator (R9)", "step budget 4M + 16 x length I/O calls per handle; a wall-clock watchdog covers loops that perform no I/O", "harness built with overflow-checks and debug-assertions on"] },
         PropCfg { id: "C09", level: "exploration", scenarios: vec![&CHUNKING], assumptions: vec![A_CODEC, "the unfragmented (Pure policy) execution is the reference outcome"] },
         PropCfg { id: "C11", level: "fault_enumeration", scenarios: vec![&IOFAULT], assumptions: vec![A_CODEC, "'identical to the failure-free run' is judged on entries/metadata/contents/comment, not on bytes (R7)", "programs end with an explicit finish(), so that no error is swallowed by Drop"] },
         PropCfg { id: "C12", level: "exploration", scenarios: vec![&STATEMACHINE], assumptions: vec![A_MODEL, A_CODEC, "after a failed state-changing call the model only constrains what the property states (R6)"] },
